@@ -139,6 +139,24 @@ CLAIMED = {
         technique="Lean 4 proofs over a table regenerated from source (decide over the whole table + case analysis) + "
                   "exhaustive capacity sweep correspondence on live sockets",
         ref="DESIGN.md §5 C10"),
+    "C11": dict(
+        text="Lean 4 proofs on a model of tcp_attr.c and of how xcm_tp_btcp.c/tconnect.c carry the five TCP options through "
+             "establishment: for ANY list of sets before connect, ANY list while connecting (after tconnect's snapshot) and ANY "
+             "list afterwards, the options applied to the connection's kernel socket equal the options XCM stores and reports "
+             "(C11_tcp_opts_in_force, by induction over the op lists; needs tcp_opts_equal a b <-> a = b, optsEqual_iff), same "
+             "for accepted connections; accepted sets read back, refused ones change nothing (C11_readback_*). Tie: the real "
+             "attribute setters + try_finish_connect of xcm_tp_btcp.c over tcp_attr.c with setsockopt wrapped (unit_btcp) vs the "
+             "model, single-field differences forced; sys_attr on live tcp/tls/btcp/btls connections reads the kernel's "
+             "SO_KEEPALIVE/TCP_KEEP*/TCP_USER_TIMEOUT of both ends after sets in all three phases and in the accept map and "
+             "compares them with xcm_attr_get and the model. Observed on live sockets (monitors, no theorem): xcm.local_addr is "
+             "the source address seen by the peer, xcm.service admits exactly the transports of that service, xcm.blocking and "
+             "xcm_set_blocking are one switch, TLS policy booleans are inherited by accepted connections unless overridden, "
+             "creation-only attributes are refused with EACCES on established connections without changing anything.",
+        note="Found and fixed here: F-11a (tcp_opts_equal '&&'). The theorem covers the TCP options; the remaining clauses of the "
+             "property are checked as runtime monitors on the real library (sampled), not proved; the generic set path "
+             "(ENOENT/EACCES/EINVAL before the setter) is C10's treeSet theorem. Kernel honouring setsockopt is assumed.",
+        technique="Lean 4 invariant proof over unbounded set histories (TCP options) + differential correspondence (unit and live sockets) + runtime monitors",
+        ref="DESIGN.md §5 C11"),
 }
 
 PENDING_REASON = "not yet built in this round: no check is claimed for it (the design in DESIGN.md §5 stands; " \
